@@ -410,6 +410,9 @@ INT_NAMES = re.compile(r"\b(?:boundary|counter|start|end|idx|index|i|j|n|pos|pos
                        r"suffix_len|prefix_len|start_idx|end_idx|layer_pos|default_idx|indent|indent_level|spaces|width)\b")
 FLOAT_HINT = re.compile(r"\d\.\d|\bf64\b|\bf32\b|\bas_f64\b|\.abs\(\)|\.round\(\)|\.fract\(\)|EPSILON|\.x\b|\.y\b|_scale\b|_offset\b")
 
+# functions that contain no site but whose conditions are what makes a site elsewhere unreachable
+EXTRA_GUARD_FNS = {"src/layer.rs": ["fn plain_name"], "src/glyph/mod.rs": ["impl Image::new"]}
+
 MACROS = r"(?<![\w])(panic|unreachable|assert|assert_eq|assert_ne|todo|unimplemented)!\s*[\(\[\{]"
 METHODS_ALWAYS = ("split_at", "split_at_mut", "split_off", "truncate", "drain", "swap_remove", "rotate_left", "rotate_right",
                   "copy_from_slice", "replace_range", "insert_str", "borrow_mut", "borrow", "step_by", "chunks", "windows",
@@ -472,10 +475,45 @@ def scan_code(code, disp, rel, excluded=None):
         e = enclosing(items, pos)
         if e not in fns_with_sites:
             fns_with_sites.append(e)
+    # functions without a site of their own whose conditions guard a site elsewhere
+    for e in EXTRA_GUARD_FNS.get(rel, []):
+        if e not in fns_with_sites:
+            fns_with_sites.append(e)
     conds = {}
-    for m in re.finditer(r"(?<![\w.])(if|while|for)\b", code):
+    for m in re.finditer(r"(?<![\w.])let\s+[^;={}]*=\s*", code):
+        # `let PATTERN = EXPR else { .. }`
         e = enclosing(items, m.start())
         if e not in fns_with_sites:
+            continue
+        j = stmt_end(code, m.end())
+        k = m.end()
+        depth = 0
+        found_else = None
+        while k < j:
+            c = code[k]
+            if c in "([{":
+                if c == "{" and depth == 0:
+                    break
+                depth += 1
+            elif c in ")]}":
+                depth -= 1
+            elif depth == 0 and re.match(r"else\b", code[k:k + 5]) and not (code[k - 1].isalnum() or code[k - 1] == "_"):
+                found_else = k
+                break
+            k += 1
+        if found_else is not None:
+            conds.setdefault(e, []).append((m.start(), "%s else" % norm(disp[m.start():found_else])))
+    for m in re.finditer(r"(?<![\w.])(if|while|for|match)\b", code):
+        e = enclosing(items, m.start())
+        if e not in fns_with_sites:
+            continue
+        if m.group(1) == "match" and e not in EXTRA_GUARD_FNS.get(rel, []):
+            continue
+        if m.group(1) == "match":
+            # the whole match of a guard function (plain_name): scrutinee and arms
+            j0 = code.find("{", m.end())
+            j1 = match_forward(code, j0) + 1
+            conds.setdefault(e, []).append((m.start(), norm(disp[m.start():j1])))
             continue
         depth = 0
         j = m.end()
@@ -497,8 +535,9 @@ def scan_code(code, disp, rel, excluded=None):
     seen = {}
     for e in fns_with_sites:
         if e in conds:
-            first = conds[e][0][0]
-            res.append(("%s|%s|guards|%s" % (rel, e, " ;; ".join(t for _, t in conds[e])), code.count("\n", 0, first) + 1, "guards"))
+            cs = sorted(conds[e])
+            first = cs[0][0]
+            res.append(("%s|%s|guards|%s" % (rel, e, " ;; ".join(t for _, t in cs)), code.count("\n", 0, first) + 1, "guards"))
     for pos, kind, text in found:
         key = "%s|%s|%s|%s" % (rel, enclosing(items, pos), kind, text)
         seen[key] = seen.get(key, 0) + 1
